@@ -127,7 +127,7 @@ def declare(reg, eng):
                              "result is old(lookup(self.jobs, job.identifier, Job)) and self.xp.unfinishedJobs == old(self.xp.unfinishedJobs) "
                              "and lookup(self.jobs, job.identifier) is old(lookup(self.jobs, job.identifier)))"),
                      ("C05", "implies(not old(haskey(self.jobs, job.identifier)), isnone(result) and lookup(self.jobs, job.identifier) is job)"),
-                     ("C06", "implies(isnone(result), self.xp.unfinishedJobs == old(self.xp.unfinishedJobs) + 1 and lookup(self.jobs, job.identifier) is job)"),
+                     (("C05", "C06"), "implies(isnone(result), self.xp.unfinishedJobs == old(self.xp.unfinishedJobs) + 1 and lookup(self.jobs, job.identifier) is job)"),
                      ("C06", "implies(not isnone(result), self.xp.unfinishedJobs == old(self.xp.unfinishedJobs))"),
                      ("C05", "isnone(result) or result is old(lookup(self.jobs, job.identifier))"),
                  ],
